@@ -20,7 +20,11 @@ type C11Obs struct {
 }
 
 // RunC11Obs runs "EHLO x", (for RCPT: "MAIL FROM:<s@x>"), "<VERB> <arg>", "QUIT".
-func RunC11Obs(cfg Cfg, verb string, arg string) C11Obs {
+func RunC11Obs(cfg Cfg, verb string, arg string) C11Obs { return RunC11ObsPre(cfg, verb, nil, arg) }
+
+// RunC11ObsPre: the same, with the complete command lines pre (which the server is expected to refuse)
+// sent on the same connection just before the line under test.
+func RunC11ObsPre(cfg Cfg, verb string, pre []string, arg string) C11Obs {
 	be := &RecBackend{script: Script{}, LMTPSess: cfg.LMTPSession}
 	s := smtp.NewServer(be)
 	lg := &logWriter{}
@@ -42,6 +46,10 @@ func RunC11Obs(cfg Cfg, verb string, arg string) C11Obs {
 	if verb == "RCPT" {
 		raws = append(raws, RD("MAIL FROM:<s@x>\r\n"))
 		before = 3
+	}
+	for _, p := range pre {
+		raws = append(raws, RD(p+"\r\n"))
+		before++
 	}
 	raws = append(raws, RD(verb+" "+arg+"\r\n"), RD("QUIT\r\n"), Raw{Kind: RawEOF})
 	sc := NewScriptConn(raws)
@@ -101,8 +109,10 @@ func unhexAtom(a string) []byte {
 	return out
 }
 
-func RunC11(cfg Cfg, verb string, arg string) *Sx {
-	o := RunC11Obs(cfg, verb, arg)
+func RunC11(cfg Cfg, verb string, arg string) *Sx { return RunC11Pre(cfg, verb, nil, arg) }
+
+func RunC11Pre(cfg Cfg, verb string, pre []string, arg string) *Sx {
+	o := RunC11ObsPre(cfg, verb, pre, arg)
 	cb := A("none")
 	if o.CB != nil {
 		cb = o.CB
@@ -111,8 +121,16 @@ func RunC11(cfg Cfg, verb string, arg string) *Sx {
 	if verb == "RCPT" {
 		v = "rcpt"
 	}
-	return L(A("c11"), cfg.Sx(), L(A("verb"), A(v)), L(A("arg"), XS(arg)),
+	c := L(A("c11"), cfg.Sx(), L(A("verb"), A(v)), L(A("arg"), XS(arg)),
 		L(A("obs"), L(A("code"), Num(int64(o.Code))), L(A("cb"), cb)))
+	if len(pre) > 0 {
+		pl := L(A("pre"))
+		for _, p := range pre {
+			pl.Add(XS(p))
+		}
+		c.Add(pl)
+	}
+	return c
 }
 
 // ---- generators ----
@@ -477,6 +495,40 @@ func GenC11(rng *rand.Rand, thorough bool, emit func(*Sx)) {
 		}
 		for _, v := range variants("TO:") {
 			emit(RunC11(cfg, "RCPT", v+"<a@b>"))
+		}
+	}
+
+	// a line is judged on its own: lines refused just before it on the same connection (refused for a
+	// parameter that comes AFTER well-formed ones, for an unknown or a disabled parameter) leave nothing behind
+	preMail := []string{"MAIL FROM:<x@y> SIZE=4096 ENVID=QQ314159 BODY==", "MAIL FROM:<x@y> SMTPUTF8 RET=FULL A=B=C",
+		"MAIL FROM:<x@y> SIZE=7 REQUIRETLS AUTH=<> =x=", "MAIL FROM:<x@y> SIZE=9 FOO=1", "MAIL FROM:<x@y> BODY=8BITMIME SIZE=abc"}
+	preRcpt := []string{"RCPT TO:<x@y> NOTIFY=SUCCESS ORCPT=rfc822;a@b X==", "RCPT TO:<x@y> NOTIFY=NEVER RRVS=2014-04-03T23:01:00Z Y=1=2",
+		"RCPT TO:<x@y> NOTIFY=FAILURE BOGUS"}
+	tgtMail := []string{"FROM:<a@b>", "FROM:<a@b> SIZE=10", "FROM:<> BODY=7BIT", "FROM:<a@b> RET=HDRS"}
+	tgtRcpt := []string{"TO:<c@d>", "TO:<c@d> NOTIFY=DELAY", "TO:<c@d> ORCPT=rfc822;o@p"}
+	for i, p1 := range append(append([]string{}, preMail...), preRcpt...) {
+		for j, p2 := range []string{"", preMail[(i+1)%len(preMail)], preRcpt[i%len(preRcpt)]} {
+			pre := []string{p1}
+			if p2 != "" {
+				pre = append(pre, p2)
+			}
+			if !thorough && (i+j)%2 != 0 {
+				continue
+			}
+			for _, t := range tgtMail {
+				onlyMail := true
+				for _, p := range pre {
+					if strings.HasPrefix(p, "RCPT") {
+						onlyMail = false
+					}
+				}
+				if onlyMail {
+					emit(RunC11Pre(c11AllOn(), "MAIL", pre, t))
+				}
+			}
+			for _, t := range tgtRcpt {
+				emit(RunC11Pre(c11AllOn(), "RCPT", pre, t))
+			}
 		}
 	}
 }
